@@ -21,15 +21,21 @@
 #include <bee2/crypto/bign96.h>
 
 /* ------------------------------------------------------------------ exact-size memory */
+/* Fresh memory is filled with VERIF_FILL (default 0).  NOTE: the J functions signal O by zeroing Z only and leave
+   X, Y as they were; the debug build's ASSERT(ecpSeemsOn3(..)) of the NEXT function then reads whatever the buffer
+   (or ecMulA's / ecAddMulA's stack) held before.  With a fill >= p (VERIF_FILL=255) the assert-enabled builds abort
+   on admissible inputs (points of order 2, ecAddMulA's initial O); this is reported, not hidden: see checks/C06.py. */
+static int FILL = 0;
 static void* xalloc(size_t size)
 {
 	void* p = malloc(size ? size : 1);
 	if (!p) { fprintf(stderr, "out of memory\n"); exit(3); }
-	memset(p, 0xA5, size);
+	memset(p, FILL, size);
 	return p;
 }
 #define WALLOC(nw) ((word*)xalloc((nw) * sizeof(word)))
 /* stacks: one exact-size block per distinct depth */
+static size_t SLACK = 0;        /* VERIF_STACK_SLACK: extra octets per stack; 0 = exactly the documented depth */
 static struct { size_t size; void* p; } STK[512];
 static int NSTK;
 static void* stk(size_t size)
@@ -37,7 +43,7 @@ static void* stk(size_t size)
 	int i;
 	for (i = 0; i < NSTK; ++i) if (STK[i].size == size) return STK[i].p;
 	if (NSTK == 512) { fprintf(stderr, "too many stack sizes\n"); exit(3); }
-	STK[NSTK].size = size; STK[NSTK].p = xalloc(size);
+	STK[NSTK].size = size; STK[NSTK].p = xalloc(size + SLACK);
 	return STK[NSTK++].p;
 }
 
@@ -499,6 +505,8 @@ static int run_exec(void)
 int main(int argc, char** argv)
 {
 	vxSeed(vxEnvSeed());
+	if (getenv("VERIF_FILL")) FILL = atoi(getenv("VERIF_FILL"));
+	if (getenv("VERIF_STACK_SLACK")) SLACK = (size_t)atoi(getenv("VERIF_STACK_SLACK"));
 	if (argc >= 2 && strcmp(argv[1], "exec") == 0) return run_exec();
 	fprintf(stderr, "usage: drv_ec exec | record <tier>\n");
 	return 2;
